@@ -447,7 +447,7 @@ impl<'f> StackPointerOffsetAnalysis {
             ==> (r is Err ==> trans_abs(self.stack_pointer, *location.function, location.loc(), opt_abs(state)) is None),
 //@ enter
     proof { lemma_loc_op(location); }
-//@ before 0 `if location == function_entry`
+//@ after 0 `.ok_or("Unable to get function entry")??;`
     proof { lemma_rpl_eq(location, function_entry); }
 //@ end
 
